@@ -253,20 +253,24 @@ def r5_inclusive_window(repo=None):
     # group uses: defined in every regex that can reach the use, or inside a try catching IndexError
     fo = cfold.Folder(repo)
     import re as _re
-    groups = {n: set(_re.compile(fo.name("list_drf", n)).groupindex) for n in RE_NAMES + ("_RE_FILE", "_RE_DRFFILE", "_RE_DMDFILE")}
+    groups = {n: set(_re.compile(fo.name("list_drf", n)).groupindex) for n in RE_NAMES + ("_RE_FILE", "_RE_DRFFILE", "_RE_DMDFILE", "_RE_SUBDIR")}
     uses = 0
-    for mod_name, quals, regs in (("watchdog_drf", [H + ".dispatch"], RE_NAMES),
-                                  ("ringbuffer", ["DigitalRFRingbufferHandlerBase._get_file_record"], ("RE_DRF", "RE_DMD", "RE_DRFDMD")),
-                                  ("list_drf", ["sortkey_drf", "_decorate_drf_files"], ("_RE_FILE", "_RE_DRFFILE", "_RE_DMDFILE"))):
+    scopes = (("watchdog_drf", lambda q: q.startswith(H + ".") or "." not in q, RE_NAMES),
+              ("ringbuffer", lambda q: q.startswith("DigitalRFRingbufferHandlerBase."), ("RE_DRF", "RE_DMD", "RE_DRFDMD")),
+              ("list_drf", lambda q: "." not in q, ("_RE_FILE", "_RE_DRFFILE", "_RE_DMDFILE")))
+    for mod_name, sel, regs in scopes:
         mm = pyfront.mod(mod_name, repo)
-        for qq in quals:
-            ff = mm.fn(qq)
-            for c in ast.walk(ff):
+        for qq, ff in mm.functions.items():
+            if "<locals>" in qq or not sel(qq):
+                continue
+            for c in pyfront.walk_no_nested(ff):
                 if isinstance(c, ast.Call) and isinstance(c.func, ast.Attribute) and c.func.attr == "group" and c.args \
                         and isinstance(pyfront.const(c.args[0]), str):
                     uses += 1
                     gname = pyfront.const(c.args[0])
                     everywhere = all(gname in groups[n] for n in regs)
+                    subdir_only = gname in groups["_RE_SUBDIR"] and not any(gname in groups[n] - groups["_RE_SUBDIR"] for n in regs) \
+                        and mod_name == "list_drf"
                     tr = mm.enclosing(c, (ast.Try,))
                     guarded = False
                     while tr is not None and not guarded:
@@ -278,14 +282,15 @@ def r5_inclusive_window(repo=None):
                                     guarded = True
                         tr = mm.enclosing(tr, (ast.Try,))
                     site = "%s:%s %s group(%r)" % (mm.rel, c.lineno, qq, gname)
-                    if everywhere or guarded:
-                        r.ok(site, "defined in every regex that can reach it" if everywhere else "inside try/except IndexError")
+                    if everywhere or guarded or subdir_only:
+                        r.ok(site, "defined in every regex that can reach it" if everywhere else (
+                            "inside try/except IndexError" if guarded else "group of the sub-directory regex"))
                     else:
                         r.violation(mm.rel, qq, "m.group(%r)" % gname, "group `%s` is not defined in every regex used here and the call is "
                                     "not guarded: an event/path matched by such a regex raises IndexError" % gname, line=c.lineno)
-    if uses < 10:
+    if uses < 6:
         raise AnalysisError("only %d m.group() uses found" % uses)
-    r.guard(13)
+    r.guard(9)
     return r
 
 
